@@ -14,6 +14,7 @@ RULE = ("operation histories over {enqueue fresh | duplicate of a stored frame |
         "compared with a reference queue and after every step a clone of the real queue is "
         "drained and compared frame by frame. Non-trivial: at least one enqueue was accepted; "
         "distinct = distinct operation histories (frame ids abstracted).")
+RULE += (" Later rounds added: long (25..144 byte) messages and random walks over a wider alphabet (frame ids differing in high bits only, messages arriving as fragments, lone FIRST fragments).")
 REQUIRED = {"enqueue_return": 50000, "dequeue_compare": 10000, "drain_compare": 50000,
             "bound_after_accept": 10000, "toggle_preserves": 5000, "node_toggle": 50, "walk_steps": 20000}
 BUDGET = {"quick": 480, "thorough": 900}
